@@ -79,3 +79,25 @@ Theorem C16_fragment_duration_wraps_refuted : forall s n, 4294967296 <= n - fs_d
   firstn 4 (trun_entry None (Some n) s) = be32 ((n - fs_dts s) mod 4294967296).
 Proof. exact trun_duration_wraps. Qed.
 Print Assumptions C16_fragment_duration_wraps_refuted.
+
+From Muxide Require Export Spec.Checks Spec.HeaderChecks Proofs.EndToEndProofs Proofs.FieldEndToEndProofs.
+(* END TO END: outside the recorded wrap classes (32-bit durations, 16.16 rate) no numeric field
+   of any finished file differs from the mathematical value implied by the input *)
+Theorem C16_finished_file_fields_are_exact : forall b m0 ops m rs s,
+  build b [] = inl m0 -> run m0 ops = (m, rs) -> In (RStats s) rs ->
+  Forall op_payload_ok ops -> len (sink_of m) < 4294967296 ->
+  sumN (durations_of (vsamples (m_writer m)) (w_vlast_delta (m_writer m))) < 4294967296 ->
+  sumN (durations_of (asamples (m_writer m)) (w_alast_delta (m_writer m))) < 4294967296 ->
+  (match cfg_audio b with Some a => at_sample_rate a < 65536 /\ at_channels a < 65536 | None => True end) ->
+  failed_C16_mux b ops (map class_of rs) (sink_of m) = [].
+Proof. exact finished_file_fields_are_exact. Qed.
+Print Assumptions C16_finished_file_fields_are_exact.
+
+(* and the recorded finding KF-C16-1 end to end: a two-frame history 47 000 s apart *)
+Theorem C16_duration_wrap_witness_refuted :
+  exists b ops, match build b [] with
+                | inl m0 => let '(m, rs) := run m0 ops in
+                            In 4 (failed_C16_mux b ops (map class_of rs) (sink_of m))
+                | inr _ => False end.
+Proof. exact duration_wrap_witness. Qed.
+Print Assumptions C16_duration_wrap_witness_refuted.
